@@ -8,14 +8,15 @@
    that is not enabled (lock taken, script exhausted) leaves the state unchanged, so every list is a schedule. *)
 From Coq Require Import List Arith Bool.
 Import ListNotations.
-Require Import FV.Gen.C08 FV.C08.Model FV.C08.Lemmas FV.C08.Table FV.C08.Snapshot FV.C08.Silence FV.C08.Subscribe FV.C08.Fresh FV.C08.Refuted.
+Require Import FV.Gen.C08 FV.C08.Model FV.C08.Lemmas FV.C08.Table FV.C08.Snapshot FV.C08.Silence FV.C08.Subscribe FV.C08.Unsubscribe FV.C08.Fresh FV.C08.Refuted.
 
 (* obligations on the facts regenerated from /repo (Gen/C08.v): the code has the modelled shape *)
 Theorem C08_source_facts :
   request_under_dispatcher_lock = true /\ announce_under_update_lock = true /\ announce_update_shape = true /\
   broadcast_listeners_shape = true /\ activate_registers_before_snapshot = true /\
   snapshot_under_module_lock = true /\ broadcast_takes_no_dispatcher_lock = true /\
-  subscribe_shape = true /\ subscription_entries_never_removed = true /\ unsubscribe_shape = true /\ deactivate_shape = true /\ reset_shape = true /\
+  subscribe_shape = true /\ subscription_entries_never_removed = true /\ unsubscribe_shape = true /\
+  unsubscribe_reaches_specific_loop = true /\ deactivate_shape = true /\ reset_shape = true /\
   handler_replies_after_dispatch = true.
 Proof. repeat split; reflexivity. Qed.
 
@@ -67,6 +68,48 @@ Theorem C08_deactivate_removes_its_scope : forall nd s c x sc p,
               else listens s c p
   end.
 Proof. exact deactivate_removes. Qed.
+
+(* a module-wide deactivate ends every parameter scope of the module, WHATEVER the history of the subscription table.
+   `s` is ANY state (in particular every state reached by any scripts under any schedule - also one in which nobody ever
+   activated the bare module, so that the event `m` has no entry in the table, or one in which it has) in which the
+   connection is about to run `deactivate m` under the dispatcher lock.  After that step:
+   (1) the reply is `inactive`; (2) the table is the one the statement-by-statement transcription of
+   Dispatcher.unsubscribe gives (the loop over the more specific events runs unconditionally);
+   (3, 4) the connection is a member of no set bound to `m:q` (any q) or to `m`; (5) every other membership - other
+   events, other connections - is what it was; (6) the generic subscribers are untouched;
+   (7) whatever the other threads (connections and drivers) do before the connection's own next step (the handing over
+   of `inactive`), it listens to a parameter of m only through a global activation;
+   (8) and if it has no global scope, no broadcast that selected it earlier is still in flight (the open finding
+   late-update, exact guard) and its script holds no later activate covering the parameter, then NO continuation
+   schedule delivers another update of that parameter to it. *)
+Theorem C08_deactivate_module_removes_parameter_scopes : forall nd s c x m,
+  c_pc (cth s c) = CAcq (RDeact (SM m) false) -> dlock s = None ->
+  let s1 := cstep nd s (TC c, x) in
+  c_pc (cth s1 c) = CSendR RpInactive /\
+  tbl s1 = tbl (unsubscribe_code s c (SM m)) /\
+  (forall q, mems c (SP m q) (subs s1) = false) /\ mems c (SM m) (subs s1) = false /\
+  (forall c' sc', mems c' sc' (subs s1) = mems c' sc' (subs s) && negb (Nat.eqb c' c && key_hits (SM m) sc')) /\
+  actv s1 = actv s /\
+  (forall others, Forall (fun st : tid * conn => fst st <> TC c) others ->
+     let s2 := run_from nd s1 others in
+     c_pc (cth s2 c) = CSendR RpInactive /\ forall q, listens s2 c (m, q) = memc c (actv s)) /\
+  (forall q sched, tbl_wf s -> memc c (actv s) = false -> ~ uflight s c (m, q) ->
+     ~ Exists (act_covering (m, q)) (c_script (cth s c)) ->
+     updates_of (m, q) (logs (run_from nd s1 sched) c) = updates_of (m, q) (logs s c)).
+Proof. exact deactivate_module_clears. Qed.
+
+(* NOT the code: the variant of unsubscribe that returns when the event itself has no entry (before the loop over the
+   more specific events).  On a fresh table - connection c activated `m:q` only, nobody the bare module - the variant
+   leaves the connection listening after `deactivate m`; the code does not.  Every step of the witness is enabled. *)
+Theorem C08_refuted_parameter_scope_survives_if_unsubscribe_returns_early :
+  exists nd cs us sched c m q,
+    all_enabled nd (init cs us) sched = true /\
+    let s := run nd cs us sched in
+    logs s c = [EReq (RAct (SP m q) false); EUpd (m, q) 0; ERep (RpActive (SP m q))] /\
+    find_key (SM m) (tbl s) = None /\
+    listens (unsubscribe_early_return s c (SM m)) c (m, q) = true /\
+    listens (unsubscribe_code s c (SM m)) c (m, q) = false.
+Proof. exact refuted_early_return_keeps_parameter_scope. Qed.
 
 (* an identification request and a disconnect remove every scope of the connection.  reset_connection is a sequence of
    steps now (one discard per event, then the generic subscribers; a disconnect runs it WITHOUT the dispatcher lock, so
@@ -202,12 +245,38 @@ Example C08_demo_subscribe_race :
   logs s 1 = [EReq (RAct (SM 0) false); EUpd P00 0; ERep (RpActive (SM 0)); EUpd P00 1] /\ listens s 1 P00 = true.
 Proof. exact code_keeps_subscription. Qed.
 
+(* non-vacuity of C08_deactivate_module_removes_parameter_scopes: `activate m0:value; deactivate m0` on a fresh table,
+   then the driver announces value := 1 - the hypotheses of the theorem hold in the state before the deactivate step
+   (no global scope, nothing in flight, no later activate), the connection gets `inactive` and no further update; and
+   the control history (bare module activated and left by connection 1 before) *)
+Example C08_demo_deactivate_module_fresh_table :
+  let cs := [[RAct (SP 0 0) false; RDeact (SM 0) false]] in
+  let us := [[(P00, 1)]] in
+  let s := run one cs us (repeat (TC 0, 0) 9) in
+  let s' := run one cs us (repeat (TC 0, 0) 11 ++ repeat (TU 0, 0) 3) in
+  all_enabled one (init cs us) (repeat (TC 0, 0) 11 ++ repeat (TU 0, 0) 3) = true /\
+  c_pc (cth s 0) = CAcq (RDeact (SM 0) false) /\ dlock s = None /\ find_key (SM 0) (tbl s) = None /\
+  memc 0 (actv s) = false /\ c_script (cth s 0) = [] /\ listens s 0 P00 = true /\
+  logs s' 0 = [EReq (RAct (SP 0 0) false); EUpd P00 0; ERep (RpActive (SP 0 0)); EReq (RDeact (SM 0) false); ERep RpInactive] /\
+  cache s' P00 = 1 /\ u_pc (uth s' 0) = UDone /\ listens s' 0 P00 = false.
+Proof. vm_compute. repeat split; reflexivity. Qed.
+Example C08_demo_deactivate_module_control :
+  let cs := [[RAct (SP 0 0) false]; [RAct (SM 0) false; RDeact (SM 0) false]] in
+  let s := run one cs [] control_sched in
+  all_enabled one (init cs []) control_sched = true /\
+  find_key (SM 0) (tbl s) = Some 0 /\ listens s 0 P00 = true /\
+  listens (unsubscribe_early_return s 0 (SM 0)) 0 P00 = false /\
+  listens (unsubscribe_code s 0 (SM 0)) 0 P00 = false.
+Proof. exact early_return_control. Qed.
+
 Print Assumptions C08_source_facts.
 Print Assumptions C08_snapshot_complete.
 Print Assumptions C08_broadcast_selects_all_listeners.
 Print Assumptions C08_every_listener_receives.
 Print Assumptions C08_scope_isolation.
 Print Assumptions C08_deactivate_removes_its_scope.
+Print Assumptions C08_deactivate_module_removes_parameter_scopes.
+Print Assumptions C08_refuted_parameter_scope_survives_if_unsubscribe_returns_early.
 Print Assumptions C08_ident_and_disconnect_remove_all.
 Print Assumptions C08_subscribe_survives_concurrent_disconnect.
 Print Assumptions C08_silent_after_scope_ended_except_late_update.
